@@ -403,7 +403,7 @@ add("join-02-merge-overwrite", ["C02"], "hyperloglog", "        registers[i] = m
 add("join-03-add-overwrite", ["C02"], "hyperloglog", "    registers[reg_idx] = max(registers[reg_idx], rank)", "    registers[reg_idx] = rank", rules=["join"])
 add("join-04-merge-neighbour", ["C02"], "hyperloglog", "        registers[i] = max(registers[i], other_registers[i])", "        registers[i] = max(registers[i], other_registers[m - 1 - i])", rules=["join"])
 add("join-05-merge-skips-last", ["C02"], "hyperloglog", "    for i in range(m):\n        registers[i] = max(", "    for i in range(m - 1):\n        registers[i] = max(", rules=["cover"])
-add("join-06-merge-writes-other", ["C02", "C09"], "hyperloglog", "        registers[i] = max(registers[i], other_registers[i])", "        registers[i] = max(registers[i], other_registers[i])\n        other_registers[i] = registers[i]", rules=["other-ro"])
+add("join-06-merge-writes-other", ["C02"], "hyperloglog", "        registers[i] = max(registers[i], other_registers[i])", "        registers[i] = max(registers[i], other_registers[i])\n        other_registers[i] = registers[i]", rules=["other-ro"])
 add("indep-01-rank-depends-on-state", ["C02"], "hyperloglog", "    rank = _n_leading_zeros64(bits) - p + 1\n", "    rank = _n_leading_zeros64(bits) - p + 1 + (registers[0] & 1)\n", rules=["indep", "bits"])
 add("bits-01-rank-plus-two", ["C02"], "hyperloglog", "    rank = _n_leading_zeros64(bits) - p + 1\n", "    rank = _n_leading_zeros64(bits) - p + 2\n", rules=["bits"])
 add("bits-02-shift-p-minus-one", ["C02"], "hyperloglog", "    bits = hash_val >> p\n", "    bits = hash_val >> (p - 1)\n", rules=["bits", "hll-range"])
@@ -444,3 +444,129 @@ add("E-qtree-01-m-times-5", ["C17"], "hyperloglog", "        if cardinality <= f
 add("E-qtree-02-nzero-ne-0", ["C17"], "hyperloglog", "    if n_zero > 0:", "    if n_zero != 0:", kind="E")
 add("E-qtree-03-flipped-threshold-test", ["C17"], "hyperloglog", "        if cardinality > threshold:", "        if threshold < cardinality:", kind="E")
 add("E-forms-01-m-times-m", ["C17"], "hyperloglog", "    return alpha * float64(m**2) / total", "    return alpha * float64(m * m) / total", kind="E")
+
+# ---------------------------------------------------------------------------
+# C14 seedrow
+# ---------------------------------------------------------------------------
+add("seedrow-01-log16-constant-seed", ["C14", "C05"], "countmin",
+    "def _query_log16(cms, buckets, width, depth, uint_maxval, key):\n    min_count = uint_maxval\n    for row in range(depth):\n        buckets[row] = fasthash64(key, row) % width",
+    "def _query_log16(cms, buckets, width, depth, uint_maxval, key):\n    min_count = uint_maxval\n    for row in range(depth):\n        buckets[row] = fasthash64(key, 7) % width", rules=["seedrow", "qmin"])
+add("seedrow-02-log8-seed-row-halved", ["C14"], "countmin",
+    "def _query_log8(cms, buckets, width, depth, uint_maxval, key):\n    min_count = uint_maxval\n    for row in range(depth):\n        buckets[row] = fasthash64(key, row) % width",
+    "def _query_log8(cms, buckets, width, depth, uint_maxval, key):\n    min_count = uint_maxval\n    for row in range(depth):\n        buckets[row] = fasthash64(key, row // 2) % width", rules=["seedrow"])
+add("seedrow-03-hh-add-constant-seed", ["C14", "C04"], "heavyhitters",
+    "    for row in range(depth):\n        col = fasthash64(key, row) % width\n        if np.all(key_array == lhh[row, col]) and key_lens",
+    "    for row in range(depth):\n        col = fasthash64(key, 0) % width\n        if np.all(key_array == lhh[row, col]) and key_lens", rules=["seedrow", "addr"])
+add("seedrow-04-hh-max-seed-depth", ["C14", "C04"], "heavyhitters",
+    "    max_count = uint32(0)\n    for row in range(depth):\n        col = fasthash64(key, row) % width", "    max_count = uint32(0)\n    for row in range(depth):\n        col = fasthash64(key, depth) % width",
+    rules=["seedrow", "addr"])
+add("seedrow-05-hash-hoisted-out-of-loop", ["C14"], "heavyhitters",
+    "    max_count = uint32(0)\n    for row in range(depth):\n        col = fasthash64(key, row) % width", "    max_count = uint32(0)\n    col = fasthash64(key, 0) % width\n    for row in range(depth):",
+    rules=["seedrow"])
+add("E-seedrow-01-seed-offset", ["C14"], "heavyhitters",
+    "    max_count = uint32(0)\n    for row in range(depth):\n        col = fasthash64(key, row) % width", "    max_count = uint32(0)\n    for row in range(depth):\n        h = fasthash64(key, row)\n        col = h % width",
+    kind="E")
+
+# ---------------------------------------------------------------------------
+# C06 randtoken / batchconst / expo
+# ---------------------------------------------------------------------------
+add("randtoken-01-log-counter-drops-pointer", ["C06"], "countmin",
+    "            rand, rand_ptr = _rand(rand_nums, rand_ptr)", "            rand, _unused = _rand(rand_nums, rand_ptr)", rules=["randtoken"])
+add("randtoken-02-add-log16-drops-pointer", ["C06"], "countmin",
+    "    new_count, rand_ptr = _log_counter(\n        min_count, num_reserved, uint_maxval, base, rand_nums, rand_ptr, value\n    )\n    # Nothing to do",
+    "    new_count, _p = _log_counter(\n        min_count, num_reserved, uint_maxval, base, rand_nums, rand_ptr, value\n    )\n    # Nothing to do", rules=["randtoken"])
+add("randtoken-03-ngram-log8-loop-drops-pointer", ["C06"], "countmin",
+    "        for i in range(key_len - (ngram - uint64(1))):\n            rand_ptr = _add_log8(", "        for i in range(key_len - (ngram - uint64(1))):\n            _ignored = _add_log8(", rules=["randtoken"])
+add("randtoken-04-method-log16-add-drops", ["C06"], "countmin",
+    "        self.rand_ptr = _add_log16(\n            self.cms,", "        _add_log16(\n            self.cms,", rules=["randtoken"])
+add("randtoken-05-method-log8-ngram-drops", ["C06"], "countmin",
+    "        self.rand_ptr = _add_ngram_log8(", "        _p = _add_ngram_log8(", rules=["randtoken"])
+add("randtoken-06-add-log8-returns-stale", ["C06"], "countmin",
+    "    # Reminder that this is a uint16 value so cast to uint8\n    new_count = uint8(new_count)\n    # Nothing to do\n    if new_count == min_count:\n        return rand_ptr",
+    "    # Reminder that this is a uint16 value so cast to uint8\n    new_count = uint8(new_count)\n    # Nothing to do\n    if new_count == min_count:\n        return uint64(0)", rules=["randtoken"])
+add("randtoken-07-log-counter-passes-zero", ["C06"], "countmin",
+    "            rand, rand_ptr = _rand(rand_nums, rand_ptr)", "            rand, rand_ptr = _rand(rand_nums, uint64(0))", rules=["randtoken"])
+add("batch-01-refill-smaller", ["C06"], "countmin", "        rand_batch[:] = np.random.rand(2048)", "        rand_batch[:] = np.random.rand(1024)", rules=["batchconst"])
+add("batch-02-test-larger", ["C06"], "countmin", "    if rand_ptr == uint64(2048):", "    if rand_ptr == uint64(4096):", rules=["batchconst"])
+add("batch-03-log8-ctor-batch", ["C06"], "countmin",
+    "        self.rand_ptr = 0\n        self.rand_nums = self.rng.random(2048)\n\n        if shared_memory:\n            cms_size = int(1 * width * depth)",
+    "        self.rand_ptr = 0\n        self.rand_nums = self.rng.random(1024)\n\n        if shared_memory:\n            cms_size = int(1 * width * depth)", rules=["batchconst"])
+add("batch-04-no-refill-wraps", ["C06"], "countmin",
+    "        rand_batch[:] = np.random.rand(2048)\n        rand_ptr = uint64(1)", "        rand_ptr = uint64(1)", rules=["batchconst"])
+add("batch-05-reads-post-increment", ["C06"], "countmin", "    return rand_batch[rand_ptr - uint64(1)], rand_ptr", "    return rand_batch[rand_ptr], rand_ptr", rules=["batchconst"])
+add("batch-06-pointer-not-advanced", ["C06"], "countmin", "    else:\n        rand_ptr += uint64(1)\n    return rand_batch", "    else:\n        rand_ptr += uint64(0)\n    return rand_batch", rules=["batchconst"])
+add("expo-01-probability-full-counter", ["C06"], "countmin",
+    "            if rand < base ** (-cprime):", "            if rand < base ** (-float64(counter)):", rules=["expo"])
+add("expo-02-decoder-exponent-counter", ["C06"], "countmin",
+    "        cprime = float64(counter - num_reserved)\n        return (base**cprime - 1.0) / (base - 1.0) + float64(num_reserved)",
+    "        cprime = float64(counter)\n        return (base**cprime - 1.0) / (base - 1.0) + float64(num_reserved)", rules=["expo"])
+add("expo-03-probability-positive-exponent", ["C06"], "countmin", "            if rand < base ** (-cprime):", "            if rand < base ** (cprime):", rules=["expo"])
+add("expo-04-test-inverted", ["C06"], "countmin", "            if rand < base ** (-cprime):", "            if rand > base ** (-cprime):", rules=["expo"])
+add("expo-05-decoder-not-geometric", ["C06"], "countmin",
+    "        return (base**cprime - 1.0) / (base - 1.0) + float64(num_reserved)", "        return base**cprime + float64(num_reserved)", rules=["expo"])
+add("expo-06-decoder-range-lt", ["C06"], "countmin", "    if counter <= num_reserved:\n        return float64(counter)", "    if counter < num_reserved - 1:\n        return float64(counter)", rules=["expo"])
+add("E-randtoken-01-renamed-pointer-local", ["C06"], "countmin",
+    "            rand, rand_ptr = _rand(rand_nums, rand_ptr)\n            if rand < base ** (-cprime):", "            draw, rand_ptr = _rand(rand_nums, rand_ptr)\n            if draw < base ** (-cprime):", kind="E")
+
+# ---------------------------------------------------------------------------
+# C09 merge
+# ---------------------------------------------------------------------------
+add("merge-01-linear-max", ["C09", "C01"], "countmin",
+    "                cms[row, col] += other_cms[row, col]\n    # Merge the special counters", "                cms[row, col] = max(cms[row, col], other_cms[row, col])\n    # Merge the special counters", rules=["msum"])
+add("merge-02-linear-writes-other", ["C09"], "countmin",
+    "                cms[row, col] += other_cms[row, col]\n    # Merge the special counters", "                cms[row, col] += other_cms[row, col]\n                other_cms[row, col] = cms[row, col]\n    # Merge the special counters", rules=["other-ro"])
+add("merge-03-log16-forgets-nrecords", ["C09", "C08"], "countmin",
+    "                    cms[row, col] = clower + uint16(1)\n\n    # Merge the special counters\n    n_added_records[0] += other_n_added_records[0]\n    n_added_records[1] += other_n_added_records[1]",
+    "                    cms[row, col] = clower + uint16(1)\n\n    # Merge the special counters\n    n_added_records[0] += other_n_added_records[0]", rules=["sumcounters", "nrecs"])
+add("merge-04-log8-always-rounds-down", ["C09"], "countmin",
+    "                if delta / (vhigher - vlower) <= 0.5:\n                    cms[row, col] = clower\n                else:\n                    cms[row, col] = clower + uint8(1)",
+    "                if delta / (vhigher - vlower) <= 1.5:\n                    cms[row, col] = clower\n                else:\n                    cms[row, col] = clower + uint8(1)", rules=["logmerge-shape"])
+add("merge-05-log16-decodes-other-with-cms", ["C09"], "countmin",
+    "            v = _counter2value(cms[row, col], num_reserved, base) + _counter2value(\n                other_cms[row, col], num_reserved, base\n            )\n            # If less than num_reserved, then c = v\n            if v <= num_reserved:\n                cms[row, col] = uint16(v)",
+    "            v = _counter2value(cms[row, col], num_reserved, base) + _counter2value(\n                cms[row, col], num_reserved, base\n            )\n            # If less than num_reserved, then c = v\n            if v <= num_reserved:\n                cms[row, col] = uint16(v)", rules=["logmerge-shape"])
+add("merge-06-log8-reserved-guard-lt", ["C09"], "countmin",
+    "            if v <= num_reserved:\n                cms[row, col] = uint8(v)", "            if v <= num_reserved - 1:\n                cms[row, col] = uint8(v)", rules=["logmerge-shape"])
+add("merge-07-log16-reencode-wrong-inverse", ["C09"], "countmin",
+    "                cprime = np.log((v - num_reserved) * (base - 1.0) + 1.0) / np.log(base)\n                cprime = uint16(cprime)",
+    "                cprime = np.log((v - num_reserved) * (base - 1.0)) / np.log(base)\n                cprime = uint16(cprime)", rules=["logmerge-shape"])
+add("merge-08-linear-col-skips-last", ["C09", "C01"], "countmin",
+    "    for row in prange(depth):\n        for col in range(width):\n            if other_cms[row, col] > uint_maxval - cms[row, col]:", "    for row in prange(depth):\n        for col in range(width - 1):\n            if other_cms[row, col] > uint_maxval - cms[row, col]:", rules=["cover"])
+add("merge-09-log8-prange-writes-row0", ["C09"], "countmin",
+    "            elif v >= max_count:\n                cms[row, col] = uint_maxval\n            else:\n                cprime = np.log((v - num_reserved) * (base - 1.0) + 1.0) / np.log(base)\n                cprime = uint8(cprime)",
+    "            elif v >= max_count:\n                cms[0, col] = uint_maxval\n            else:\n                cprime = np.log((v - num_reserved) * (base - 1.0) + 1.0) / np.log(base)\n                cprime = uint8(cprime)", rules=["cover"])
+add("E-merge-01-log8-half-test-rearranged", ["C09"], "countmin",
+    "                if delta / (vhigher - vlower) <= 0.5:\n                    cms[row, col] = clower\n                else:\n                    cms[row, col] = clower + uint8(1)",
+    "                if 2.0 * delta <= vhigher - vlower:\n                    cms[row, col] = clower\n                else:\n                    cms[row, col] = clower + uint8(1)", kind="E")
+
+# ---------------------------------------------------------------------------
+# C11 hashes
+# ---------------------------------------------------------------------------
+add("pure-01-fasthash-cache", ["C11"], "hashes",
+    "    m = uint64(0x880355F21E6D1965)\n\n    key_len = uint64(len(key))", "    m = uint64(0x880355F21E6D1965) + uint64(id(key) & 0)\n\n    key_len = uint64(len(key))", rules=["pure"])
+add("pure-02-murmur-random-salt", ["C11"], "hashes", "    h = seed\n    c1 = uint32(0xCC9E2D51)", "    h = seed ^ uint32(np.random.randint(1))\n    c1 = uint32(0xCC9E2D51)", rules=["pure"])
+add("blocksize-01-fasthash-mask-3", ["C11"], "hashes", "    switch_case = key_len & 7", "    switch_case = key_len & 3", rules=["blocksize", "bytes-once"])
+add("blocksize-02-murmur-div-8", ["C11"], "hashes", "    nblocks = key_len // 4  # How many 4-byte blocks are there", "    nblocks = key_len // 8", rules=["blocksize"])
+add("blocksize-03-murmur-blocks-as-uint16", ["C11"], "hashes", "    blocks = np.frombuffer(key[: nblocks * 4], np.uint32)", "    blocks = np.frombuffer(key[: nblocks * 4], np.uint16)", rules=["blocksize"])
+add("blocksize-04-fasthash-tail-offset", ["C11"], "hashes", "    if switch_case == 7:\n        tail = key[nblocks * 8 :]", "    if switch_case == 7:\n        tail = key[nblocks * 8 + 1 :]", rules=["blocksize"])
+add("blockloop-01-murmur-skips-last-block", ["C11"], "hashes", "    for i in range(nblocks):\n        k1 = blocks[i]", "    for i in range(nblocks - 1):\n        k1 = blocks[i]", rules=["blockloop"])
+add("blockloop-02-murmur-always-block0", ["C11"], "hashes", "    for i in range(nblocks):\n        k1 = blocks[i]", "    for i in range(nblocks):\n        k1 = blocks[0]", rules=["blockloop"])
+add("blockloop-03-fasthash-first-two-blocks", ["C11"], "hashes", "        for v in blocks:\n            h ^= _fhmix64(v)", "        for v in blocks[:2]:\n            h ^= _fhmix64(v)", rules=["blockloop"])
+add("bytes-01-fasthash-tail4-shift24", ["C11"], "hashes",
+    "        v = _xor_shiftl(v, tail[6], 48)\n        v = _xor_shiftl(v, tail[5], 40)\n        v = _xor_shiftl(v, tail[4], 32)", "        v = _xor_shiftl(v, tail[6], 48)\n        v = _xor_shiftl(v, tail[5], 40)\n        v = _xor_shiftl(v, tail[4], 24)", rules=["bytes-once"])
+add("bytes-02-fasthash-residue5-dup-byte", ["C11"], "hashes",
+    "    elif switch_case == 5:\n        tail = key[nblocks * 8 :]\n        v = uint64(0)\n        v = _xor_shiftl(v, tail[4], 32)\n        v = _xor_shiftl(v, tail[3], 24)\n        v = _xor_shiftl(v, tail[2], 16)",
+    "    elif switch_case == 5:\n        tail = key[nblocks * 8 :]\n        v = uint64(0)\n        v = _xor_shiftl(v, tail[4], 32)\n        v = _xor_shiftl(v, tail[3], 24)\n        v = _xor_shiftl(v, tail[1], 16)", rules=["bytes-once"])
+add("bytes-03-murmur-residue2-missing-byte", ["C11"], "hashes",
+    "    elif switch_len == 2:\n        k1 = _xor32(k1, _shift32l(tail[1], 8))\n        k1 = _xor32(k1, tail[0])", "    elif switch_len == 2:\n        k1 = _xor32(k1, tail[0])", rules=["bytes-once"])
+add("bytes-04-murmur-residue1-branch-dropped", ["C11"], "hashes",
+    "    elif switch_len == 1:\n        k1 = _xor32(k1, tail[0])\n        k1 *= c1\n        k1 = _rotl32(k1, 15)\n        k1 *= c2\n        h = _xor32(h, k1)\n", "", rules=["bytes-once"])
+add("bytes-05-fasthash-residue3-byte-order", ["C11"], "hashes",
+    "    elif switch_case == 3:\n        tail = key[nblocks * 8 :]\n        v = uint64(0)\n        v = _xor_shiftl(v, tail[2], 16)\n        v = _xor_shiftl(v, tail[1], 8)\n        v ^= uint64(tail[0])",
+    "    elif switch_case == 3:\n        tail = key[nblocks * 8 :]\n        v = uint64(0)\n        v = _xor_shiftl(v, tail[0], 16)\n        v = _xor_shiftl(v, tail[1], 8)\n        v ^= uint64(tail[2])", rules=["bytes-once"])
+add("uwidth-01-fhmix-signed", ["C11"], "hashes", "@njit(uint64(uint64))\ndef _fhmix64(h):", "@njit(types.int64(types.int64))\ndef _fhmix64(h):", rules=["uwidth"])
+add("uwidth-02-shift32r-64bit", ["C11"], "hashes", "@njit(uint32(uint32, uint32))\ndef _shift32r(x, y):", "@njit(uint64(uint64, uint64))\ndef _shift32r(x, y):", rules=["uwidth"])
+add("uwidth-03-fasthash64-seed32", ["C11", "C02"], "hashes", "@njit(uint64(types.Bytes(types.uint8, 1, \"C\"), uint64))\ndef fasthash64(key, seed):", "@njit(uint64(types.Bytes(types.uint8, 1, \"C\"), uint32))\ndef fasthash64(key, seed):", rules=["uwidth"])
+add("E-bytes-01-fasthash-lines-reordered", ["C11"], "hashes",
+    "    elif switch_case == 2:\n        tail = key[nblocks * 8 :]\n        v = uint64(0)\n        v = _xor_shiftl(v, tail[1], 8)\n        v ^= uint64(tail[0])",
+    "    elif switch_case == 2:\n        tail = key[nblocks * 8 :]\n        v = uint64(0)\n        v ^= uint64(tail[0])\n        v = _xor_shiftl(v, tail[1], 8)", kind="E")
+add("E-blockloop-01-murmur-iterates-directly", ["C11"], "hashes", "    for i in range(nblocks):\n        k1 = blocks[i]", "    for k1 in blocks:", kind="E")
